@@ -112,6 +112,14 @@ func init() {
 		"vFloatText": func(m *Machine, fr *frame, fn *ssa.Function, a []value) value {
 			return numLit{isFloat: true, T: m.term(a[0])}
 		},
+		"vOrderMode": func(m *Machine, fr *frame, fn *ssa.Function, a []value) value {
+			m.OrderMode = a[0].(bool)
+			m.orderBudget = m.cfg.OrderBudget
+			if m.orderBudget == 0 {
+				m.orderBudget = 1
+			}
+			return nil
+		},
 		"vIsNative": func(m *Machine, fr *frame, fn *ssa.Function, a []value) value { return false },
 		"vSetTokens": func(m *Machine, fr *frame, fn *ssa.Function, a []value) value {
 			var toks []string
